@@ -105,6 +105,8 @@ def variants_for(prop: str) -> List[Dict[str, Any]]:
                 'kind': 'twin', 'generator': 'unparse'})
     out.append({'name': 'generated twin: every local variable of every function renamed', 'kind': 'twin', 'generator': 'rename'})
     out.append({'name': 'generated twin: every plain if/else rewritten as `if not c: <else> else: <then>`', 'kind': 'twin', 'generator': 'ifswap'})
+    out.append({'name': 'generated twin: a `pass` inserted after every statement of every function', 'kind': 'twin', 'generator': 'padpass'})
+    out.append({'name': 'generated twin: every guard clause `if c: ...; return` + rest rewritten as if/else', 'kind': 'twin', 'generator': 'guard2else'})
     if SEEDED.is_dir():
         for d in sorted(SEEDED.iterdir()):
             m = d / 'meta.json'
